@@ -555,3 +555,25 @@ func (e *Engine) depSignature(ct *FuncContract) *types.Signature {
 }
 
 func (e *Engine) isPureExtern(full string) bool { return e.pure[full] }
+
+// funcValueContract finds a contract for a call through a function-typed struct field
+// (`//@ func (field)T.f`) or package-level variable (`//@ func (var)name`).
+func (e *Engine) funcValueContract(v ssa.Value) *FuncContract {
+	u, ok := v.(*ssa.UnOp)
+	if !ok || u.Op != token.MUL {
+		return nil
+	}
+	switch x := u.X.(type) {
+	case *ssa.FieldAddr:
+		st := x.X.Type().Underlying().(*types.Pointer).Elem()
+		n, ok := st.(*types.Named)
+		if !ok || n.Obj().Pkg() == nil {
+			return nil
+		}
+		f := st.Underlying().(*types.Struct).Field(x.Field)
+		return e.cs.Funcs[n.Obj().Pkg().Path()+"::(field)"+n.Obj().Name()+"."+f.Name()]
+	case *ssa.Global:
+		return e.cs.Funcs[x.Pkg.Pkg.Path()+"::(var)"+x.Name()]
+	}
+	return nil
+}
